@@ -150,7 +150,15 @@ class Ctx:
         if e is None:
             self.nfresh += 1
             b = z3.Bool('%s!%d' % (name, self.nfresh))
-            self.solver.add(b == builder(c))
+            if z3.is_const(c.v):
+                gk = (name, c.v.decl().name())
+                t = self.m.term_cache.get(gk)
+                if t is None:
+                    t = builder(c)
+                    self.m.term_cache[gk] = t
+            else:
+                t = builder(c)
+            self.solver.add(b == t)
             e = (b, c.v)
             self.preds[key] = e
         return e[0]
@@ -441,6 +449,7 @@ class Machine:
         self.encoded = {}      # crate function name -> call count (evidence)
         self.depth = 0
         self.const_cache = {}
+        self.term_cache = {}   # (predicate, variable name) -> z3 term, shared by all paths
 
     # ------------------------------------------------------------ literals
     def str_lit(self, s):
@@ -597,18 +606,18 @@ class Machine:
         raise Unsupported('call of non-callable %r' % (f,))
 
     def call_path(self, path, args, term=None):
-        ck = self.callkey_cache.get(path)
-        if ck is None:
+        ent = self.callkey_cache.get(path)
+        if ent is None:
             ck = parse_callee(path)
-            self.callkey_cache[path] = ck
+            ent = (ck, ck.key(), self.res.resolve_path(ck) if ck.kind == 'path' else None)
+            self.callkey_cache[path] = ent
+        ck, key, fn = ent
         ctx = self.ctx
         ctx.tick()
-        key = ck.key()
         stub = self.stubs.get(key)
         if stub is not None:
             return stub(ctx, args, ck)
         if ck.kind == 'path':
-            fn = self.res.resolve_path(ck)
             if fn is not None:
                 return self.call_fn(fn, args)
             mdl = MODELS.get(key)
@@ -1319,6 +1328,10 @@ class Machine:
         if isinstance(a, Int) and isinstance(b, Int):
             if isinstance(a.v, int) and isinstance(b.v, int):
                 return a.v == b.v
+            if a.v is b.v:
+                return True
+            if not isinstance(a.v, int) and not isinstance(b.v, int) and a.v.get_id() == b.v.get_id():
+                return True
             return a.z() == b.z()
         if isinstance(a, (bool, z3.BoolRef)) and isinstance(b, (bool, z3.BoolRef)):
             return self.bool_binop('Eq', a, b)
